@@ -78,6 +78,8 @@ inductive Op
   | verify                        -- signature_valid, remainder = self._verify_signature(auth, data)
   | decode (src : Src) (off : Nat) -- unpacked = unpack_serializable_list(payloads, src, offset=off)   (consume_all)
   | assertValid                   -- if not signature_valid: raise PacketDecodingError
+  | assertWeakened                -- if not signature_valid and <another condition>: raise      (NOT in the code today: the
+                                  --   check is skipped whenever the other condition is false; fails the guard)
   | assertDebug                   -- assert signature_valid, msg     (compiled away under python -O / PYTHONOPTIMIZE;
                                   --   NOT in the code today; translated so that it fails the guard, not the translator)
   | lookupPeer                    -- peer = network.verified_by_public_key_bin.get(auth.public_key_bin)
@@ -126,6 +128,8 @@ structure Env (P : Type) where
   netAddr : Option Bytes := none
   /-- interpreter configuration: `python -O` / `PYTHONOPTIMIZE` (assert statements are not executed) -/
   optimized : Bool := false
+  /-- value of the extra condition of a weakened check (`if not signature_valid and <cond>`) for this datagram -/
+  weakCond : Bool := true
 
 structure Regs (P : Type) where
   auth : Option Bytes := none
@@ -161,6 +165,12 @@ def step {P : Type} (E : Env P) (data : Bytes) (r : Regs P) : Op → Except (Out
       | none => .error (.rejected .decode)
       | some p => .ok { r with unpacked := some p }
   | .assertValid =>
+    match r.sigValid with
+    | none => .error .stuck
+    | some true => .ok r
+    | some false => .error (.rejected .signature)
+  | .assertWeakened =>
+    if !E.weakCond then .ok r else
     match r.sigValid with
     | none => .error .stuck
     | some true => .ok r
@@ -349,6 +359,25 @@ def onPacket {P : Type} (G : Progs) (o : Overlay) (envOf : Handler → Env P) (p
         | .unsignedWd => .handler h (run (envOf h) G.unsignedWd data)
         | .raw => .handler h (discRaw (envOf h) G.ezUnpackAuth G.rawCatches data)
         | _ => .other h
+
+/-! ### liveness bookkeeping in `on_packet` (before any check) -/
+
+/-- what `on_packet` uses to find the "probable peer" whose `last_response` it refreshes for EVERY incoming datagram -/
+inductive LivenessSource
+  | sourceAddress      -- network.get_verified_by_address(source_address)
+  | datagramContent    -- anything computed from `data` (e.g. the key named at offset 23): NOT in the code today
+  deriving DecidableEq, Repr
+
+/-- the stored Peer that gets the liveness credit: first source that yields one -/
+def livenessCredit (srcs : List LivenessSource) (netAddr : Option Bytes) (net : Bytes → Option Bytes) (data : Bytes) :
+    Option Bytes :=
+  srcs.foldl (fun acc s =>
+    match acc with
+    | some k => some k
+    | none =>
+      match s with
+      | .sourceAddress => netAddr
+      | .datagramContent => (keyField false data).bind net) none
 
 /-! ### a node over histories: who ends up in `verified_peers` -/
 
